@@ -328,6 +328,55 @@ def module_term(family, which, call, hyps):
 
 # ---- autogreek dataflow --------------------------------------------------------------------------
 
+AUTOGREEK_REPLAY = '''
+import math
+import pfhedge.autogreek as ag
+bad = []
+K0 = 1.25        # exactly representable in float32: autogreek turns a Python strike into a default-dtype tensor
+S = T([0.9, 1.25, 1.7]); v = T([0.2, 0.3, 0.25]); tt = T([0.5, 0.3, 1.0])
+pricers = {
+    "spot": lambda spot, volatility: spot ** 3 / K0 ** 3 * volatility + spot * volatility,
+    "moneyness": lambda moneyness, volatility: moneyness ** 3 * volatility + moneyness * K0 * volatility,
+    "log_moneyness": lambda log_moneyness, volatility: (3 * log_moneyness).exp() * volatility + log_moneyness.exp() * K0 * volatility,
+}
+callers = {"spot": lambda: {"spot": S.clone(), "strike": K0}, "moneyness": lambda: {"moneyness": S / K0, "strike": K0}, "log_moneyness": lambda: {"log_moneyness": (S / K0).log(), "strike": K0}}
+want_delta = 3 * S ** 2 / K0 ** 3 * v + v
+want_gamma = 6 * S / K0 ** 3 * v
+ran = 0
+for pn, pr in pricers.items():
+    for cn, mk in callers.items():
+        for greek, want in (("delta", want_delta), ("gamma", want_gamma)):
+            kw = mk(); kw["volatility"] = v.clone()
+            if pn == "spot" and cn == "spot": kw.pop("strike")
+            before = {k_: (x_.clone() if torch.is_tensor(x_) else x_) for k_, x_ in kw.items()}
+            try:
+                got = getattr(ag, greek)(pr, **kw)
+            except Exception as e:
+                bad.append((greek, pn, cn, type(e).__name__ + ": " + str(e)[:80])); continue
+            ran += 1
+            if not torch.allclose(got, want, rtol=1e-9): bad.append((greek, "pricer(%s)" % pn, "caller passes %s" % cn, got.tolist(), want.tolist()))
+            for k_, x_ in kw.items():
+                if torch.is_tensor(x_) and not torch.equal(x_.detach(), before[k_]): bad.append((greek, pn, cn, "argument %s modified" % k_))
+# vega / theta
+for (pn, pr, kw, want) in (("volatility", lambda spot, volatility: spot * volatility ** 3, {"spot": S, "volatility": v}, 3 * S * v ** 2),
+                           ("variance", lambda spot, variance: spot * variance ** 2, {"spot": S, "volatility": v}, 4 * S * v ** 3),
+                           ("variance<-variance", lambda spot, variance: spot * variance ** 2, {"spot": S, "variance": v ** 2}, 4 * S * v ** 3),
+                           ("volatility<-variance", lambda spot, volatility: spot * volatility ** 3, {"spot": S, "variance": v ** 2}, 3 * S * v ** 2)):
+    got = ag.vega(pr, **{k_: x_.clone() for k_, x_ in kw.items()})
+    if not torch.allclose(got, want, rtol=1e-9): bad.append(("vega", pn, got.tolist(), want.tolist()))
+got = ag.theta(lambda spot, time_to_maturity: spot * time_to_maturity ** 2, spot=S.clone(), time_to_maturity=tt.clone())
+if not torch.allclose(got, -2 * S * tt, rtol=1e-9): bad.append(("theta", got.tolist()))
+result = {"got": [str(b) for b in bad][:10], "ref": [], "ran": ran}
+'''
+
+
+def _replay_autogreek():
+    from pfv.framework import real_exec
+    r = real_exec(AUTOGREEK_REPLAY, {}, timeout=300)
+    ok = r.get('ok') and r['result']['got'] == [] and r['result'].get('ran') == 18
+    return {'real': r, 'confirmed': not ok, 'note': 'replay: autogreek.delta/gamma for concrete polynomial/exponential pricers in the three parametrisations x three caller namings (18 calls) against the analytic derivative, caller arguments unchanged; vega (volatility/variance) and theta'}
+
+
 def autogreek_obligations(seed):
     """For an uninterpreted smooth pricer P with each accepted parameter naming, the value returned by
     autogreek.<greek> equals the derivative of P along the documented reparametrisation."""
@@ -376,7 +425,7 @@ def autogreek_obligations(seed):
                 return Verdict('proved', r.backend, r.time_s, '', sample=sample)
             if r.status == 'sat':
                 return Verdict('refuted', r.backend, r.time_s, 'autogreek.%s result differs from the chain-rule value: got %s expected %s' % (greek, tm.show(got)[:300], tm.show(exp)[:300]),
-                               witness={'got': tm.show(got)[:800], 'expected': tm.show(exp)[:800]}, sample=sample)
+                               witness={'got': tm.show(got)[:800], 'expected': tm.show(exp)[:800]}, sample=sample, replay=_replay_autogreek())
             return Verdict('unknown', r.backend, r.time_s, r.reason, sample=sample)
         return Obligation('C08/autogreek.%s/%s' % (greek, label), 'post', 'pfhedge.autogreek.' + greek, check, [PROP],
                           clause='autogreek.%s(pricer(%s); caller passes %s) == chain-rule derivative at the caller\'s point' % (greek, ','.join(pricer_names), ','.join(caller)))
